@@ -218,7 +218,7 @@ func ParseContractFile(path, pkgPath string) (*ContractFile, error) {
 		case "note":
 			cur.Notes = append(cur.Notes, rest)
 		case "modifies":
-			for _, m := range strings.Split(rest, ",") {
+			for _, m := range splitTopLevel(rest) {
 				if m = strings.TrimSpace(m); m != "" {
 					cur.Modifies = append(cur.Modifies, m)
 				}
@@ -412,4 +412,24 @@ func findContractFiles(repo, mirror string) (map[string]string, map[string]bool,
 		}
 	}
 	return res, fromMirror, nil
+}
+
+// splitTopLevel splits at commas that are not inside parentheses/brackets.
+func splitTopLevel(s string) []string {
+	var parts []string
+	depth, start := 0, 0
+	for i, r := range s {
+		switch r {
+		case '(', '[':
+			depth++
+		case ')', ']':
+			depth--
+		case ',':
+			if depth == 0 {
+				parts = append(parts, s[start:i])
+				start = i + 1
+			}
+		}
+	}
+	return append(parts, s[start:])
 }
